@@ -16,7 +16,8 @@ package main
 //     them while handlers still hold the previous instance.
 // The other goroutines play HTTP handlers and the metrics/expiry callers on whatever instance they
 // got hold of (the previous and the current one): GET /config and /status/state through
-// DispatchPrivateWithoutAuth, Banned, OriginWhitelisted, TrustedBridge, SessionLimit, ChannelLimit,
+// DispatchPrivateWithoutAuth, the HTML status page GET /status (which locks ConfigMu of the instance
+// whose Config it renders), Banned, OriginWhitelisted, TrustedBridge, SessionLimit, ChannelLimit,
 // Marshal, ExpireSessions.  Instances must not share mutable state: every one has its own ConfigMu.
 
 import (
@@ -35,6 +36,7 @@ import (
 	"time"
 
 	"github.com/golang/protobuf/proto"
+	hclog "github.com/hashicorp/go-hclog"
 	"github.com/hashicorp/raft"
 	"github.com/robustirc/robustirc/internal/api"
 	"github.com/robustirc/robustirc/internal/ircserver"
@@ -42,6 +44,14 @@ import (
 	"github.com/robustirc/robustirc/internal/raftstore"
 	"github.com/robustirc/robustirc/internal/robust"
 )
+
+// verifRace2NopFSM: the raft node of this scenario only serves the raft calls of the status page
+// (GetConfiguration, State, Leader, Stats); the real FSM is driven by the scenario's own FSM goroutine
+type verifRace2NopFSM struct{}
+
+func (verifRace2NopFSM) Apply(*raft.Log) interface{}         { return nil }
+func (verifRace2NopFSM) Snapshot() (raft.FSMSnapshot, error) { return nil, fmt.Errorf("not used") }
+func (verifRace2NopFSM) Restore(rc io.ReadCloser) error      { return rc.Close() }
 
 type verifRace2Sink struct{ bytes.Buffer }
 
@@ -82,7 +92,26 @@ func TestVerifRaceTwoInstances(t *testing.T) {
 		lastSnapshotState: make(map[uint64][]byte),
 		ReplaceState:      func(*ircserver.IRCServer, *raftstore.LevelDBStore, *outputstream.OutputStream) {},
 	}
-	h := api.NewHTTP(ircServer, nil, ircStore, outputStream, nil, *network, "pw", dir, "node0", true, 3)
+	rcfg := raft.DefaultConfig()
+	rcfg.LocalID = "node0"
+	rcfg.HeartbeatTimeout = 50 * time.Millisecond
+	rcfg.ElectionTimeout = 50 * time.Millisecond
+	rcfg.LeaderLeaseTimeout = 50 * time.Millisecond
+	rcfg.CommitTimeout = 5 * time.Millisecond
+	rcfg.Logger = hclog.NewNullLogger()
+	rstore := raft.NewInmemStore()
+	_, rtrans := raft.NewInmemTransport("node0")
+	rsnaps := raft.NewInmemSnapshotStore()
+	if err := raft.BootstrapCluster(rcfg, rstore, rstore, rsnaps, rtrans, raft.Configuration{
+		Servers: []raft.Server{{ID: rcfg.LocalID, Address: "node0"}}}); err != nil {
+		t.Fatal(err)
+	}
+	statusNode, err := raft.NewRaft(rcfg, verifRace2NopFSM{}, rstore, rstore, rsnaps, rtrans)
+	if err != nil {
+		t.Fatal(err)
+	}
+	defer statusNode.Shutdown()
+	h := api.NewHTTP(ircServer, statusNode, ircStore, outputStream, nil, *network, "pw", dir, "node0", true, 3)
 	fsm.ReplaceState = h.ReplaceState
 	// the instances handlers may still hold: [0] the previous one, [1] the current one
 	var held [2]atomic.Value
@@ -142,7 +171,11 @@ func TestVerifRaceTwoInstances(t *testing.T) {
 					cnt.inc("fsm: GLINE applied")
 				}
 			}
-			gline(10)
+			if round%3 == 2 {
+				gline(3) // a short log: the restores below replay it every time
+			} else {
+				gline(10)
+			}
 			if round%3 == 2 {
 				// nothing is old enough to be compacted: the snapshot carries every entry, and Restore
 				// replays Config + GLINEs into a fresh instance while handlers still use the previous one
@@ -159,13 +192,17 @@ func TestVerifRaceTwoInstances(t *testing.T) {
 				}
 				snap.Release()
 				cnt.inc("fsm: Snapshot+Persist (nothing compacted)")
-				if err := fsm.Restore(io.NopCloser(bytes.NewReader(sink.Bytes()))); err != nil {
-					t.Errorf("Restore: %v", err)
-					return
+				// several restores in a row (raft may install snapshot after snapshot on a lagging follower):
+				// every one swaps the instance under the handlers' feet, then a Config entry is applied to it
+				for k := 0; k < 12 && atomic.LoadInt32(&stop) == 0; k++ {
+					if err := fsm.Restore(io.NopCloser(bytes.NewReader(sink.Bytes()))); err != nil {
+						t.Errorf("Restore: %v", err)
+						return
+					}
+					cnt.inc("fsm: Restore (fresh instance replays Config + GLINE)")
+					held[0].Store(held[1].Load())
+					held[1].Store(currentIRCServer())
 				}
-				cnt.inc("fsm: Restore (fresh instance replays Config + GLINE)")
-				held[0].Store(held[1].Load())
-				held[1].Store(currentIRCServer())
 				gline(5) // and GLINEs on the new instance while the previous one is still being read
 			} else {
 				// everything is old: Snapshot's temporary server replays Config + GLINEs of the range
@@ -189,7 +226,12 @@ func TestVerifRaceTwoInstances(t *testing.T) {
 			rng := rand.New(rand.NewSource(seed + int64(r) + 1))
 			for atomic.LoadInt32(&stop) == 0 {
 				i := held[rng.Intn(2)].Load().(*ircserver.IRCServer)
-				switch rng.Intn(10) {
+				switch rng.Intn(13) {
+				case 10, 11, 12:
+					// the HTML status page: ConfigMu of the instance + its Config + GetSessions + raft calls
+					rec := httptest.NewRecorder()
+					h.DispatchPrivateWithoutAuth(rec, httptest.NewRequest("GET", "/status", nil))
+					cnt.inc("handler: GET /status")
 				case 0, 1, 2:
 					rec := httptest.NewRecorder()
 					h.DispatchPrivateWithoutAuth(rec, httptest.NewRequest("GET", "/config", nil))
@@ -220,6 +262,21 @@ func TestVerifRaceTwoInstances(t *testing.T) {
 				}
 			}
 		}(r)
+	}
+
+	// the status page, hammered: it locks ConfigMu of the instance whose Config it renders.  Many
+	// requests in flight: most of their time is spent parked in raft calls between taking the lock and
+	// reading the configuration, which is where a swap of the instance hurts
+	for r := 0; r < 6; r++ {
+		wg.Add(1)
+		go func() {
+			defer wg.Done()
+			for atomic.LoadInt32(&stop) == 0 {
+				rec := httptest.NewRecorder()
+				h.DispatchPrivateWithoutAuth(rec, httptest.NewRequest("GET", "/status", nil))
+				cnt.inc("handler: GET /status")
+			}
+		}()
 	}
 
 	time.Sleep(time.Duration(ms) * time.Millisecond)
